@@ -1,6 +1,7 @@
 (** C12 — Documented value ranges and ordering invariants hold on every valid stream (exact arithmetic). *)
 From Yata Require Import Base.Prelude Base.Num Base.NumR Core.Window Core.Candle Core.Action Core.Strings
-  Spec.Hist Spec.MethodDefs Spec.IndicatorDefs Methods.Basic Methods.Select Indicators.Common Indicators.Set3 Proofs.Ranges Proofs.Averages.
+  Spec.Hist Spec.MethodDefs Spec.IndicatorDefs Methods.Basic Methods.Select Indicators.Common Indicators.Set1 Indicators.Set2 Indicators.Set3 Proofs.Ranges Proofs.Averages
+  Proofs.IndicatorProofs2 Proofs.IndicatorProofs3 Proofs.IndicatorProofs6.
 From Coq Require Import Reals.
 Open Scope R_scope.
 
@@ -52,6 +53,51 @@ Proof. exact (psar_side s k). Qed.
 Theorem C12_ema_stays_in_range (al x0 lo hi : R) rh : 0 <= al <= 1 -> lo <= x0 <= hi -> (forall x, In x rh -> lo <= x <= hi) ->
   lo <= ema_rec al x0 rh <= hi.
 Proof. exact (ema_range al x0 lo hi rh). Qed.
+
+(** ---- end to end: the MODEL of the code (not only the formula) stays inside the documented range after every stream,
+    in exact arithmetic: composition of the value theorems of C05 with the range theorems above *)
+Theorem C12_cmo_model_range period zone src (c0 : C) cs c : cmo_validate period zone = true ->
+  exists s0, cmo_init period zone src c0 = Ok s0 /\
+    Forall (fun v => -1 <= v <= 1) (fst (snd (cmo_next (steps cmo_next s0 cs) c))).
+Proof.
+  intros Hv. destruct (cmo_values_correct period zone src c0 cs c Hv) as (s0 & E & H). exists s0. split; [exact E|].
+  rewrite H. apply cmo_range.
+Qed.
+Theorem C12_mfi_model_range period zone (c0 : C) cs c : mfi_validate period zone = true ->
+  c_volume c0 >= 0 -> (forall k, In k (cs ++ [c]) -> c_volume k >= 0) ->
+  exists s0, mfi_init period zone c0 = Ok s0 /\
+    match fst (snd (mfi_next (steps mfi_next s0 cs) c)) with [_; v; _] => 0 <= v <= 1 | _ => False end.
+Proof.
+  intros Hv H0 Hc. destruct (mfi_values_correct period zone c0 cs c Hv) as (s0 & E & H). exists s0. split; [exact E|].
+  rewrite H. apply mfi_range; [exact H0|]. intros k Hk. apply Hc. apply in_rev. exact Hk.
+Qed.
+Theorem C12_aroon_model_range n zone ozp (c0 : C) cs c : aroon_validate n zone ozp = true ->
+  exists s0, aroon_init n zone ozp c0 = Ok s0 /\
+    Forall (fun v => 0 <= v <= 1) (fst (snd (aroon_next (steps aroon_next s0 cs) c))).
+Proof.
+  intros Hv. destruct (aroon_values_correct n zone ozp c0 cs c Hv) as (s0 & E & H). exists s0. split; [exact E|].
+  rewrite H. apply aroon_range.
+  unfold aroon_validate in Hv. repeat (apply andb_prop in Hv; destruct Hv as (Hv & ?)).
+  repeat match goal with H : (_ <? _)%Z = true |- _ => apply Z.ltb_lt in H end. lia.
+Qed.
+Theorem C12_bollinger_model_order (cfg : boll_cfg (N := NumR)) (c0 : C) cs c : boll_validate cfg = true ->
+  exists s0, boll_init cfg c0 = Ok s0 /\
+    match fst (snd (boll_next (steps boll_next s0 cs) c)) with [u; m; l] => l <= m <= u | _ => False end.
+Proof.
+  intros Hv. destruct (bollinger_values_correct cfg c0 cs c Hv) as (s0 & E & H). exists s0. split; [exact E|].
+  rewrite H. apply bollinger_order.
+  unfold boll_validate in Hv. apply andb_prop in Hv. destruct Hv as (Hv & _). apply andb_prop in Hv. destruct Hv as (Hv & _).
+  revert Hv. unfold fgt. cbn [flt NumR f0]. unfold f0. cbn. intros Hv. destruct (Rltb_spec 0 (bc_sigma cfg)); [|discriminate]. apply Rlt_le. assumption.
+Qed.
+Theorem C12_donchian_model_contains n (c0 : C) cs c i : (2 <= n <= pmax - 1)%Z -> (i < Z.to_nat n)%nat ->
+  exists s0, donch_init n c0 = Ok s0 /\
+    match fst (snd (donch_next (steps donch_next s0 cs) c)) with
+    | [lo; mid; hi] => lo <= c_low (hget c0 (rev (cs ++ [c])) i) /\ c_high (hget c0 (rev (cs ++ [c])) i) <= hi
+    | _ => False end.
+Proof.
+  intros Hn Hi. destruct (donchian_values_correct n c0 cs c Hn) as (s0 & E & H). exists s0. split; [exact E|].
+  rewrite H. apply donchian_contains. exact Hi.
+Qed.
 End C12.
 
 (** Known findings KF-C12-{cmo,mfi,rsi}-residue: on the faithful binary64 model (kernel computation) the running sums of
